@@ -431,7 +431,9 @@ def history_order_rule(ctx, res, rule: str) -> None:
     """(shared by C11/C12/C18) The saved history is two lists; the element ORDER is the undo/redo order.  Writer and loader
     must agree: slot k written from list L in direction d is rebuilt into L so that (iteration direction x insertion end)
     gives the same order back.  `insert(0, ...)` in a forward loop reverses the list: after a reopen redo() re-applies the
-    oldest undone change first."""
+    oldest undone change first.  The payload handed to write_data is evaluated abstractly (list literals, appends, named
+    locals, a value-returning private helper), the loader's loops / extend / comprehension assignments likewise, so the
+    verdict does not depend on how the two are written."""
     from .c10 import _insert_discipline, _iter_discipline
     idx = ctx.idx
     hist = idx.need_class("rope.base.history.History")
@@ -446,58 +448,121 @@ def history_order_rule(ctx, res, rule: str) -> None:
     ld = hist.methods.get("_load_history")
     if w is None or ld is None:
         raise AnalysisError("anchor=History.write/_load_history missing")
-    # writer: data.append([... for x in <iter over self.L>]) in order; slot index = order of appends
-    written = []
-    for st in walk_local(w.node):
-        if isinstance(st, ast.Expr) and isinstance(st.value, ast.Call) and call_name(st.value) == "append" and st.value.args \
-                and isinstance(st.value.args[0], ast.ListComp) and len(st.value.args[0].generators) == 1:
-            g = st.value.args[0].generators[0]
-            attr = next((canon(x) for x in ast.walk(g.iter) if canon(x)), None)
-            if attr is None:
-                continue
-            raw = next(x for x in ast.walk(g.iter) if canon(x))
-            it = ast.parse(ast.unparse(g.iter).replace(ast.unparse(raw), "L"), mode="eval").body
-            written.append((attr, _iter_discipline(ast.For(target=g.target, iter=it, body=[], orelse=[]), "L"), st))
-    written.sort(key=lambda t: (t[2].lineno, t[2].col_offset))
-    if len(written) < 2:
-        raise AnalysisError("anchor=History.write: the two list comprehensions appended to the saved data not found")
-    # loader: for data in result[k]: self.L.<insert>(...)
+
+    def direction(target, it, of) -> Optional[str]:
+        """iteration direction of `it` relative to the sub-expression `of` (replaced by the name L)"""
+        e = ast.parse(ast.unparse(it).replace(ast.unparse(of), "L"), mode="eval").body
+        return _iter_discipline(ast.For(target=target, iter=e, body=[], orelse=[]), "L")
+
+    # ---- writer: abstract value of the payload.  ("seq", attr, direction, node) | ("list", [values]) | None
+    def seq_of(e):
+        if isinstance(e, (ast.ListComp, ast.GeneratorExp)) and len(e.generators) == 1 and not e.generators[0].ifs:
+            g = e.generators[0]
+            raw = next((x for x in ast.walk(g.iter) if canon(x)), None)
+            if raw is not None:
+                return ("seq", canon(raw), direction(g.target, g.iter, raw), e)
+        if isinstance(e, ast.Call) and call_name(e) in ("list", "tuple") and len(e.args) == 1:
+            return seq_of(e.args[0])
+        return None
+
+    def evaluate(fn, depth=0):
+        """-> (env, returned value) after walking fn's statements in source order"""
+        env = {}
+
+        def val(e):
+            sv = seq_of(e)
+            if sv is not None:
+                return sv
+            if isinstance(e, (ast.List, ast.Tuple)):
+                return ("list", [val(x) for x in e.elts])
+            if isinstance(e, ast.Name):
+                return env.get(e.id)
+            if isinstance(e, ast.Call) and is_self_attr(e.func) and depth < 2:
+                h = idx.find_method(hist.qualname, e.func.attr)
+                if h is not None and h.name.startswith("_"):
+                    return evaluate(h, depth + 1)[1]
+            return None
+
+        ret = None
+        for st in sorted((x for x in walk_local(fn.node) if isinstance(x, ast.stmt)), key=lambda x: (x.lineno, x.col_offset)):
+            if isinstance(st, ast.Assign) and len(st.targets) == 1 and isinstance(st.targets[0], ast.Name):
+                env[st.targets[0].id] = val(st.value)
+            elif isinstance(st, ast.Expr) and isinstance(st.value, ast.Call) and isinstance(st.value.func, ast.Attribute) \
+                    and isinstance(st.value.func.value, ast.Name) and isinstance(env.get(st.value.func.value.id), tuple) \
+                    and env[st.value.func.value.id][0] == "list" and st.value.args:
+                lst = env[st.value.func.value.id][1]
+                if st.value.func.attr == "append":
+                    lst.append(val(st.value.args[0]))
+                elif st.value.func.attr == "insert" and isinstance(st.value.args[0], ast.Constant) and st.value.args[0].value == 0 and len(st.value.args) > 1:
+                    lst.insert(0, val(st.value.args[1]))
+                elif st.value.func.attr == "extend" and isinstance(val(st.value.args[0]), tuple) and val(st.value.args[0])[0] == "list":
+                    lst.extend(val(st.value.args[0])[1])
+            elif isinstance(st, ast.Return) and st.value is not None:
+                ret = val(st.value)
+            elif isinstance(st, ast.Expr) and isinstance(st.value, ast.Call) and call_name(st.value) == "write_data" and len(st.value.args) >= 2:
+                ret = val(st.value.args[1])
+        return env, ret
+
+    payload = evaluate(w)[1]
+    if not (isinstance(payload, tuple) and payload[0] == "list" and len(payload[1]) >= 2 and all(isinstance(x, tuple) and x[0] == "seq" for x in payload[1])):
+        raise AnalysisError("anchor=History.write: the payload handed to write_data is not recognised as a list of per-list sequences")
+    written = [(x[1], x[2], x[3]) for x in payload[1]]
+
+    # ---- loader: (slot k, attr, net order "same"/"reversed"/None, node)
     loaded = []
-    for lp in walk_local(ld.node):
-        if not isinstance(lp, ast.For):
-            continue
-        subs = [x for x in ast.walk(lp.iter) if isinstance(x, ast.Subscript) and isinstance(x.slice, ast.Constant) and isinstance(x.slice.value, int)]
-        if len(subs) != 1:
-            continue
-        k = subs[0].slice.value
-        it = ast.parse(ast.unparse(lp.iter).replace(ast.unparse(subs[0]), "L"), mode="eval").body
-        d = _iter_discipline(ast.For(target=lp.target, iter=it, body=[], orelse=[]), "L")
-        ins = [c for c in calls_in(lp) if isinstance(c.func, ast.Attribute) and c.func.attr in ("append", "insert", "appendleft", "extend") and canon(c.func.value)]
-        if len(ins) != 1:
-            continue
-        loaded.append((k, canon(ins[0].func.value), d, _insert_discipline(ins[0]), lp, ins[0]))
+
+    def slot_in(e):
+        subs = [x for x in ast.walk(e) if isinstance(x, ast.Subscript) and isinstance(x.slice, ast.Constant) and isinstance(x.slice.value, int)
+                and isinstance(x.value, ast.Name)]
+        return subs[0] if len(subs) == 1 else None
+
+    for x in walk_local(ld.node):
+        if isinstance(x, ast.For):
+            sub = slot_in(x.iter)
+            ins = [c for c in calls_in(x) if isinstance(c.func, ast.Attribute) and c.func.attr in ("append", "insert", "appendleft") and canon(c.func.value)]
+            if sub is None or len(ins) != 1:
+                continue
+            d, insd = direction(x.target, x.iter, sub), _insert_discipline(ins[0])
+            net = None if d is None or insd is None else ("same" if (d, insd) in (("forward", "back"), ("backward", "front")) else "reversed")
+            loaded.append((sub.slice.value, canon(ins[0].func.value), net, ins[0], f"a {d} loop inserting at the {insd}"))
+        elif isinstance(x, ast.Call) and isinstance(x.func, ast.Attribute) and x.func.attr == "extend" and canon(x.func.value) and x.args \
+                and isinstance(x.args[0], (ast.GeneratorExp, ast.ListComp)) and len(x.args[0].generators) == 1:
+            g = x.args[0].generators[0]
+            sub = slot_in(g.iter)
+            if sub is None:
+                continue
+            d = direction(g.target, g.iter, sub)
+            loaded.append((sub.slice.value, canon(x.func.value), None if d is None else ("same" if d == "forward" else "reversed"), x, f"extend over a {d} iteration"))
+        elif isinstance(x, (ast.Assign, ast.AugAssign)) and isinstance(x.value, (ast.ListComp, ast.GeneratorExp)) and len(x.value.generators) == 1:
+            tg = x.targets[0] if isinstance(x, ast.Assign) else x.target
+            if isinstance(tg, ast.Subscript):
+                tg = tg.value
+            g = x.value.generators[0]
+            sub = slot_in(g.iter)
+            if sub is None or not canon(tg):
+                continue
+            d = direction(g.target, g.iter, sub)
+            loaded.append((sub.slice.value, canon(tg), None if d is None else ("same" if d == "forward" else "reversed"), x, f"a list built over a {d} iteration"))
     if len(loaded) < 2:
-        raise AnalysisError("anchor=History._load_history: the loops that rebuild the two lists from result[k] not found")
-    loaded.sort(key=lambda t: t[4].lineno)
+        raise AnalysisError("anchor=History._load_history: the places that rebuild the two lists from result[k] not found")
     n = 0
     for k, (attr, wd, st) in enumerate(written):
         mine = [t for t in loaded if t[1] == attr]
         n += 1
         if len(mine) != 1:
             res.add(rule, f"History|saved-order|slot{k}", False, f"{ld.unit.rel}:{ld.node.lineno}",
-                    f"{attr} (slot {k} of the saved history) is rebuilt by {len(mine)} loops of _load_history", function=ld.qualname)
+                    f"{attr} (slot {k} of the saved history) is rebuilt at {len(mine)} places of _load_history", function=ld.qualname)
             continue
-        lk, lattr, d, insd, lp, call = mine[0]
-        if wd is None or d is None or insd is None:
-            res.undecided(rule, f"History|saved-order|slot{k}", f"{ld.unit.rel}:{lp.lineno}", f"iteration/insertion shape not recognised (write {wd}, load {d}/{insd})")
+        lk, lattr, net_load, call, how = mine[0]
+        if wd is None or net_load is None:
+            res.undecided(rule, f"History|saved-order|slot{k}", f"{ld.unit.rel}:{call.lineno}", f"iteration/insertion shape not recognised (write {wd}, load {how})")
             continue
-        net_load = "same" if (d, insd) in (("forward", "back"), ("backward", "front")) else "reversed"
         net = net_load if wd == "forward" else ("reversed" if net_load == "same" else "same")
         ok = lk == k and net == "same"
         res.add(rule, f"History|saved-order|slot{k}", ok, f"{ld.unit.rel}:{call.lineno}",
                 f"slot {k}: {attr} is saved {wd} and rebuilt in the same order" if ok else
                 (f"{attr} is written to slot {k} of the saved history but rebuilt from slot {lk}: after close + reopen the undo and redo lists are exchanged" if lk != k else
-                 f"slot {k}: {attr} is saved {wd} but rebuilt with a {d} loop inserting at the {insd}: the list comes back REVERSED, so after "
+                 f"slot {k}: {attr} is saved {wd} but rebuilt with {how}: the list comes back REVERSED, so after "
                  "close + reopen undo()/redo() take the oldest entry first and no longer restore the state before / after the last change"),
                 function=ld.qualname)
     res.floor(rule, "saved history slots", n, 2)
